@@ -33,6 +33,8 @@ pub const F64_EDGES: &[u64] = &[
 pub const F32_EDGES: &[u32] = &[
     0x0000_0000, 0x8000_0000, 0x0000_0001, 0x007f_ffff, 0x0080_0000, 0x7f7f_ffff, 0x7f80_0000, 0xff80_0000,
     0x3fc0_0000, 0x402d_70a4, 0x3dcc_cccd, 0x3f80_0001, 0x4b80_0000, 0xdf00_0000,
+    // decimal ties: `Display` and serde_json (ryu) print different shortest decimals
+    0x4817_6fc8, 0x4715_a810,
 ];
 
 pub const BF16_EDGES: &[u16] = &[0x0000, 0x8000, 0x0001, 0x007f, 0x0080, 0x7f7f, 0x7f80, 0xff80, 0x7fc0, 0x7f81, 0xffff, 0x3f80];
